@@ -19,7 +19,51 @@ import json
 
 from common import MachineryFailure
 
-CHUNK = 20000
+CHUNK = 10000
+
+
+class _Part:
+    """One concurrently running part of the check (case table / Unit(str) histories / edited registries).  TLC runs and
+    replays go straight to the Check object (ck.tlc / ck.pmap may be called from several threads); verdicts, counters and
+    coverage entries are recorded here and applied by the main thread in a fixed order, so the report is deterministic."""
+
+    def __init__(self, ck):
+        self._ck = ck
+        self._calls = []
+        self.cov = {}
+
+    def __getattr__(self, name):
+        return getattr(self._ck, name)
+
+    def violation(self, *a, **k):
+        self._calls.append(("violation", a, k))
+
+    def drift_step(self, *a, **k):
+        self._calls.append(("drift_step", a, k))
+
+    def validated(self, *a, **k):
+        self._calls.append(("validated", a, k))
+
+    def sample(self, *a, **k):
+        self._calls.append(("sample", a, k))
+
+    def note(self, *a, **k):
+        self._calls.append(("note", a, k))
+
+    def apply(self):
+        for name, a, k in self._calls:
+            getattr(self._ck, name)(*a, **k)
+        self._ck.cov.update(self.cov)
+
+
+def _tlc_chunks(ck, jobs):
+    """run independent trace-validation chunks concurrently; results in job order.  jobs: list of kwargs for ck.tlc"""
+    import concurrent.futures as cf
+    from common import NCPU
+
+    with cf.ThreadPoolExecutor(max_workers=max(1, min(len(jobs), NCPU))) as ex:
+        futs = [ex.submit(lambda kw=kw: ck.tlc(**kw)) for kw in jobs]
+        return [f.result() for f in futs]
 
 
 def _name(common, case):
@@ -43,10 +87,12 @@ def _key(common, data, rec, case):
 def _validate(ck, common, data, data_path, obs, label):
     """TLC evaluates P and T on the observations; returns (#P-FAIL records, #T-FAIL records)."""
     np_, nt = 0, 0
-    for off in range(0, len(obs), CHUNK):
-        part = obs[off : off + CHUNK]
-        path = ck.write_json(f"obs_{label}_{off}.json", part)
-        res = ck.tlc("Trace_C14", env={"OBS": path, "NAMES_DATA": data_path}, workers=1, coverage=False, label=f"trace validation {label}[{off}:{off + len(part)}]", timeout=3000)
+    parts = [obs[off : off + CHUNK] for off in range(0, len(obs), CHUNK)]
+    jobs = []
+    for n, part in enumerate(parts):
+        path = ck.write_json(f"obs_{label}_{n}.json", part)
+        jobs.append(dict(module="Trace_C14", env={"OBS": path, "NAMES_DATA": data_path}, workers=1, coverage=False, label=f"trace validation {label}[{n * CHUNK}:{n * CHUNK + len(part)}]", timeout=3000))
+    for part, res in zip(parts, _tlc_chunks(ck, jobs)):
         if res.distinct != len(part) + 1:
             raise MachineryFailure(f"trace validation consumed {res.distinct} states, expected {len(part) + 1}")
         ck.validated(len(part))
@@ -80,10 +126,13 @@ def _tables(ck):
 
 def _validate_hist(ck, common, data, data_path, traces):
     nfail = 0
-    for off in range(0, len(traces), CHUNK):
-        part = traces[off : off + CHUNK]
-        path = ck.write_json(f"hist_{off}.json", part)
-        res = ck.tlc("Trace_C14_hist", env={"TRACES": path, "NAMES_DATA": data_path}, workers=1, coverage=False, label=f"trace validation histories[{off}:{off + len(part)}]", timeout=3000)
+    HC = 2000
+    parts = [traces[off : off + HC] for off in range(0, len(traces), HC)]
+    jobs = []
+    for n, part in enumerate(parts):
+        path = ck.write_json(f"hist_{n}.json", part)
+        jobs.append(dict(module="Trace_C14_hist", env={"TRACES": path, "NAMES_DATA": data_path}, workers=1, coverage=False, label=f"trace validation histories[{n * HC}:{n * HC + len(part)}]", timeout=3000))
+    for part, res in zip(parts, _tlc_chunks(ck, jobs)):
         expect = 1 + sum(len(t["ev"]) + 1 for t in part)  # initial state + per trace: selection state + one per call
         if res.distinct != expect:
             raise MachineryFailure(f"history validation consumed {res.distinct} states, expected {expect}")
@@ -111,6 +160,8 @@ def _short_edit(e):
         return "add_symbols"
     if e["op"] == "add":
         return f"add({e['k']},{e['m']},prefixable={e['pfx']})"
+    if e["op"] == "define":
+        return f"define_unit({e['k']},({e['m']},'m'),prefixable={e['pfx']})"
     if e["op"] == "modify":
         return f"modify({e['k']},{e['m']})"
     return f"remove({e['k']})"
@@ -123,10 +174,13 @@ def _strip_edit(e):
 def _validate_edit(ck, traces, label):
     """Trace_C14_edit: P (EditStr / EditNs / EditAgree under the caller's view of the registry) and T on replayed edit histories"""
     nfail = 0
-    for off in range(0, len(traces), CHUNK):
-        part = traces[off : off + CHUNK]
-        path = ck.write_json(f"edit_{label}_{off}.json", part)
-        res = ck.tlc("Trace_C14_edit", env={"TRACES": path}, workers=1, coverage=False, label=f"trace validation edited registry {label}[{off}:{off + len(part)}]", timeout=3000)
+    EC = 1500
+    parts = [traces[off : off + EC] for off in range(0, len(traces), EC)]
+    jobs = []
+    for n, part in enumerate(parts):
+        path = ck.write_json(f"edit_{label}_{n}.json", part)
+        jobs.append(dict(module="Trace_C14_edit", env={"TRACES": path}, workers=1, coverage=False, label=f"trace validation edited registry {label}[{n * EC}:{n * EC + len(part)}]", timeout=3000))
+    for part, res in zip(parts, _tlc_chunks(ck, jobs)):
         expect = 1 + sum(len(t["ev"]) + 2 for t in part)  # initial + per trace: selection, one per call, final observation
         if res.distinct != expect:
             raise MachineryFailure(f"edit-history validation consumed {res.distinct} states, expected {expect}")
@@ -138,9 +192,9 @@ def _validate_edit(ck, traces, label):
             t = part[r["tid"] - 1]
             nfail += 1
             at_final = r["l"] > len(t["ev"])
-            edits = [e["op"] for e in t["ev"][: len(t["ev"]) if at_final else r["l"]] if e["op"] in ("add", "remove", "modify")]
-            key = {"clause": r["clause"], "route": "edited-registry", "probe": r["probe"], "layer": r["layer"], "last_edit": edits[-1] if edits else "none"}
-            ck.violation(key, {"history": [_short_edit(e) for e in t["ev"]], "at": "final observation" if at_final else r["l"], "observed": r["observed"], "expected": r["expected"]}, case={"edit": [_strip_edit(e) for e in t["ev"]]})
+            edits = [e["op"] for e in t["ev"][: len(t["ev"]) if at_final else r["l"]] if e["op"] in ("add", "remove", "modify", "define")]
+            key = {"clause": r["clause"], "route": "edited-registry" if t["kind"] == "custom" else "default-registry", "probe": r["probe"], "layer": r["layer"], "last_edit": edits[-1] if edits else "none"}
+            ck.violation(key, {"history": [_short_edit(e) for e in t["ev"]], "at": "final observation" if at_final else r["l"], "observed": r["observed"], "expected": r["expected"]}, case={"edit": [_strip_edit(e) for e in t["ev"]], "kind": t["kind"]})
     return nfail
 
 
@@ -153,16 +207,16 @@ def _edit(ck):
     hs = res.by_tag("HIST")
     if len(hs) != res.distinct or len(hs) < 20:
         raise MachineryFailure(f"exported {len(hs)} edit histories for {res.distinct} states")
-    hs.sort(key=lambda r: json.dumps(r["h"], sort_keys=True))
+    hs.sort(key=lambda r: (r["kind"], json.dumps(r["h"], sort_keys=True)))
     model_classes = sorted({(c["layer"]) for r in hs for c in r["stale"]})
-    cases = [{"h": r["h"]} for r in hs]
-    traces = ck.pmap("impl_c14", "observe_edit", cases)
+    cases = [{"kind": r["kind"], "h": r["h"]} for r in hs]
+    traces = ck.pmap("impl_c14", "observe_edit", cases, chunk_timeout=ck.q(600, 3000))
     bad = [t for t in traces if "_error" in t]
     if bad:
         raise MachineryFailure("edit-history replay error: " + str(bad[0]))
     nfail = _validate_edit(ck, traces, "hist")
     ck.sample({"edit_history": [_short_edit(e) for e in cases[len(cases) // 2]["h"]]})
-    ck.cov["edited_registry"] = {"max_len": maxlen, "histories": len(cases), "model_level_stale_layers": model_classes, "p_fail_records": nfail,
+    ck.cov["edited_registry"] = {"max_len": maxlen, "histories": len(cases), "on_default_registry": sum(1 for c in cases if c["kind"] == "default"), "model_level_stale_layers": model_classes, "p_fail_records": nfail,
                                  "namespace_built": sum(1 for t in traces if t["final"]["nsok"]), "namespace_refused": sum(1 for t in traces if not t["final"]["nsok"])}
 
 
@@ -198,51 +252,28 @@ def _hist(ck, common, data, data_path):
     ck.cov["histories"] = {"alphabet": [_name(common, a) for a in alpha], "max_len": maxlen, "replayed": len(traces), "p_fail_records": nfail}
 
 
-def run(ck):
-    ck.level = "model_checking"
-    ck.assumptions += [
-        "the documented names are: table symbols, listed alternatives, prefix symbol + prefixable symbol, prefix word + listed alternative of a prefixable unit (stated in Names.tla), plus every generated name / unit_symbols attribute / top-level unit attribute found in the tree",
-        "units are compared by denotation: [table symbol i, decimal exponent e] such that the observed unit has the dimensions and offset of Unit(symbol i) and a scale within 2 ulp (4.5e-16 relative) of 10^e times its scale; the SI exponents are stated in Names.tla, not read from the tree",
-        "Title-case variants are Python's str.title() (supplied as a table: TLC has no character access); the reading relation admits them for spellings of >= 4 characters",
-        "top-level attributes that are physical constants shadowing a unit name are C15's business (not unit attributes)",
-        "TLC never sees floats; strings travel as ASCII-escaped JSON and cases refer to them by index",
-    ]
-    data, meta, common = _tables(ck)
-    data_path = ck.write_json("names_data.json", data)
-    ck.note({"tokenizer_alias_table": meta["tok_source"], "top_level_names_shadowed_by_constants": len(meta["top_shadowed_by_non_units"])})
-    if meta["alts_of_unknown_symbol"]:
-        ck.cov["uncovered"].append({"alternatives_listed_for_symbols_not_in_the_table": meta["alts_of_unknown_symbol"]})
-
-    if ck.replay:
-        blob = json.load(open(ck.replay))
-        case = blob["case"]
-        if "edit" in case:
-            traces = ck.pmap("impl_c14", "observe_edit", [{"h": case["edit"]}], nproc=1)
-            _validate_edit(ck, traces, "replay")
-            return
-        if "h" in case:
-            traces = ck.pmap("impl_c14", "observe_hist", [{"h": case["h"]}], nproc=1, common=common)
-            _validate_hist(ck, common, data, data_path, traces)
-            return
-        # the case is (prefix part, base string number); re-locate the base string in the current tables by its text
-        if case["pk"] == "none" and "name" in case:
-            nameno = {n: i + 1 for i, n in enumerate(common["names"])}
-            case["b"] = nameno.get(case["name"], case["b"])
-        case = {"pk": case["pk"], "pi": case["pi"], "b": case["b"]}
-        obs = ck.pmap("impl_c14", "observe", [case], nproc=1, common=common)
-        _validate(ck, common, data, data_path, obs, "replay")
-        return
-
+def _cases(ck, common, data, data_path):
+    """the single-step case table: TLC enumerates, the library is replayed through every route, TLC validates"""
     domain = ck.q("core", "wide")
-    cfg = open(ck.spec + "/MC_C14.cfg").read().replace('Domain = "core"', f'Domain = "{domain}"')
-    open(ck.spec + "/MC_C14_run.cfg", "w").write(cfg)
-    res = ck.tlc("MC_C14", "MC_C14_run", env={"NAMES_DATA": data_path}, workers=1, label=f"case table, domain={domain}", required_actions=["Next"], timeout=3000)
-    cases = res.by_tag("CASE")
-    if len(cases) != res.distinct - 1 or len(cases) < len(common["names"]):
-        raise MachineryFailure(f"exported {len(cases)} cases for {res.distinct} states")
+    slices = ["names", "sym", "word", "title"] + ck.q([], ["wsym", "wword"])
+    jobs = []
+    for d in slices:
+        cfg = open(ck.spec + "/MC_C14.cfg").read().replace('Domain = "core"', f'Domain = "{d}"')
+        open(ck.spec + f"/MC_C14_run_{d}.cfg", "w").write(cfg)
+        jobs.append(dict(module="MC_C14", cfg=f"MC_C14_run_{d}", env={"NAMES_DATA": data_path}, workers=1, label=f"case table, domain={domain}, slice={d}", required_actions=["Next"], timeout=3000))
+    cases = []
+    table_fail = []
+    for d, res in zip(slices, _tlc_chunks(ck, jobs)):
+        part = res.by_tag("CASE")
+        if len(part) != res.distinct - 1 or not part:
+            raise MachineryFailure(f"slice {d}: exported {len(part)} cases for {res.distinct} states")
+        cases += part
+        table_fail += [r for r in res.by_tag("TABLE-FAIL") if r["clause"] != "PrefixTable" or d == "names"]
+    if len(cases) < len(common["names"]):
+        raise MachineryFailure(f"exported only {len(cases)} cases")
     cases.sort(key=lambda r: (r["pk"], r["pi"], r["b"]))
     # table-level clauses (no observation needed): decided by TLC in the instance itself
-    for r in res.by_tag("TABLE-FAIL"):
+    for r in table_fail:
         case = {"pk": r["pk"], "pi": r["pi"], "b": r["b"]}
         key = _key(common, data, r, case) if r["b"] else {"clause": r["clause"], "route": "table", "prefix": data["prefixes"][r["pi"] - 1]["p"]}
         ck.violation(key, {"denotations": r.get("dens")}, case=dict(case, name=_name(common, case) if r["b"] else ""))
@@ -269,5 +300,55 @@ def run(ck):
     ck.cov["t_fail_records"] = nt
     ck.cov["routes_observed"] = {k: sum(1 for o in obs if o["r"][k]["present"]) for k in ("str", "reg", "qty", "us", "top", "ns")}
 
-    _hist(ck, common, data, data_path)
-    _edit(ck)
+
+
+def run(ck):
+    ck.level = "model_checking"
+    ck.assumptions += [
+        "the documented names are: table symbols, listed alternatives, prefix symbol + prefixable symbol, prefix word + listed alternative of a prefixable unit (stated in Names.tla), plus every generated name / unit_symbols attribute / top-level unit attribute found in the tree",
+        "units are compared by denotation: [table symbol i, decimal exponent e] such that the observed unit has the dimensions and offset of Unit(symbol i) and a scale within 2 ulp (4.5e-16 relative) of 10^e times its scale; the SI exponents are stated in Names.tla, not read from the tree",
+        "Title-case variants are Python's str.title() (supplied as a table: TLC has no character access); the reading relation admits them for spellings of >= 4 characters",
+        "top-level attributes that are physical constants shadowing a unit name are C15's business (not unit attributes)",
+        "TLC never sees floats; strings travel as ASCII-escaped JSON and cases refer to them by index",
+    ]
+    data, meta, common = _tables(ck)
+    data_path = ck.write_json("names_data.json", data)
+    ck.note({"tokenizer_alias_table": meta["tok_source"], "top_level_names_shadowed_by_constants": len(meta["top_shadowed_by_non_units"])})
+    if meta["alts_of_unknown_symbol"]:
+        ck.cov["uncovered"].append({"alternatives_listed_for_symbols_not_in_the_table": meta["alts_of_unknown_symbol"]})
+
+    if ck.replay:
+        blob = json.load(open(ck.replay))
+        case = blob["case"]
+        if "edit" in case:
+            traces = ck.pmap("impl_c14", "observe_edit", [{"kind": case.get("kind", "custom"), "h": case["edit"]}], nproc=1)
+            _validate_edit(ck, traces, "replay")
+            return
+        if "h" in case:
+            traces = ck.pmap("impl_c14", "observe_hist", [{"h": case["h"]}], nproc=1, common=common)
+            _validate_hist(ck, common, data, data_path, traces)
+            return
+        # the case is (prefix part, base string number); re-locate the base string in the current tables by its text
+        if case["pk"] == "none" and "name" in case:
+            nameno = {n: i + 1 for i, n in enumerate(common["names"])}
+            case["b"] = nameno.get(case["name"], case["b"])
+        case = {"pk": case["pk"], "pi": case["pi"], "b": case["b"]}
+        obs = ck.pmap("impl_c14", "observe", [case], nproc=1, common=common)
+        _validate(ck, common, data, data_path, obs, "replay")
+        return
+
+    import concurrent.futures as cf
+
+    pa, pb, pc = _Part(ck), _Part(ck), _Part(ck)
+    with cf.ThreadPoolExecutor(max_workers=3) as ex:
+        fa = ex.submit(_cases, pa, common, data, data_path)
+        fb = ex.submit(_hist, pb, common, data, data_path)
+        fc = ex.submit(_edit, pc)
+        for f in (fa, fb, fc):
+            f.result()
+    for part in (pa, pb, pc):
+        part.apply()
+    # the TLC counters were updated from several threads: recompute them from the list of runs
+    ck.cov["states"] = sum(r.distinct for r in ck.tlc_runs)
+    ck.cov["transitions"] = sum(r.generated for r in ck.tlc_runs)
+    ck.cov["tlc_runs"].sort(key=lambda r: r["label"])
